@@ -369,7 +369,7 @@ func c07R4(c *Ctx) {
 		ob := c.Ob("C07.R4", name, fd.Pos())
 		par := soleParam(c, fd)
 		v := c.view(fd)
-		paths := c.NewSX().Run(fd)
+		paths := mergeBoolReturn(c.NewSX().Run(fd)) // `if self.isEqual(x) { return true }; return false` is `return self.isEqual(x)`
 		good := len(paths) == 1 && paths[0].Why == "" && paths[0].End == "return" && len(paths[0].Vals) == 1 && len(paths[0].Effects()) == 0
 		if good {
 			call, ok := paths[0].Vals[0].(TCall)
